@@ -72,7 +72,13 @@ impl DeliveryState {
 
 impl Drop for DeliveryState {
     fn drop(&mut self) {
-        let lock = self.registered_signal_ids.lock().unwrap();
+        // A panic while the lock was held (refusing a forbidden or out of range signal) must not
+        // turn into another panic here; the table is only written after a successful
+        // registration, so it is consistent even then.
+        let lock = self
+            .registered_signal_ids
+            .lock()
+            .unwrap_or_else(std::sync::PoisonError::into_inner);
         for id in lock.iter().filter_map(|s| *s) {
             crate::low_level::unregister(id);
         }
@@ -199,7 +205,12 @@ impl Handle {
     /// * If the relevant [`Exfiltrator`] does not support this particular signal. The default
     ///   [`SignalOnly`] one supports all signals.
     pub fn add_signal(&self, signal: c_int) -> Result<(), Error> {
-        let mut lock = self.delivery_state.registered_signal_ids.lock().unwrap();
+        // Poisoning is of no interest, see the Drop of DeliveryState.
+        let mut lock = self
+            .delivery_state
+            .registered_signal_ids
+            .lock()
+            .unwrap_or_else(std::sync::PoisonError::into_inner);
         // Already registered, ignoring
         if lock[signal as usize].is_some() {
             return Ok(());
